@@ -300,7 +300,7 @@ func Run(ctx *common.Ctx) {
 	ctx.Meta.DistinctNontrivial = len(distinct)
 	ctx.Meta.Rule = "operator from {+ - * / floor ceiling truncate round mod rem abs 1+ 1- gcd lcm < <= > >= = logand logior logxor lognot} x 1..3 operands (0..4 for logand logior logxor, 60% of them drawn from a mix of small fixnums of both signs, random 64-bit fixnums, the grid, +-2^k+-j for k in 64..133, and the general integers, each position independently, so negative fixnums occur before and after the first bignum) drawn from the boundary grid {0,+-1,+-2,+-3,+-7,+-10,+-2^e,+-(2^e-1),+-(2^e+1) for e in 31,32,62,63,64} (40%), small integers, random 64-bit and random <=200-bit integers, ratios of those (30% for operators that take them), bignum objects holding small values, and in 55% of the cases operands derived from the first one (equal, negated, +-1, small multiples and exact quotients, multiple plus small remainder, exact half-way points, the integers around a ratio, +1/2); distinct = distinct (operator, operand representations) tuples, all non-trivial"
 	header := "From C05 Require Import Model Spec Corr.\nOpen Scope Z_scope.\n"
-	footer := "Definition res := Eval vm_compute in check_all cases.\nPrint res.\nDefinition gcount := Eval vm_compute in guard_count cases.\nPrint gcount.\n"
+	footer := "Definition res := Eval vm_compute in check_all cases.\nPrint res.\nDefinition gcount := Eval vm_compute in guard_count cases.\nPrint gcount.\nDefinition vcount := Eval vm_compute in value_guard_count cases.\nPrint vcount.\n"
 	ctx.WriteShards("cases", header, "case", footer, terms, descs, 16)
 	ctx.ReplayKnownLisp()
 }
